@@ -18,7 +18,7 @@ def run(c):
     drv = c.driver(DRIVER)
     binary = c.go_build(HARNESS)
     if binary and drv:
-        rc, out = c.go_run(binary, [f"-n={c.n(600, 12000)}"])
+        rc, out = c.go_run(binary, [f"-n={c.n(400, 20000)}"])
         c.harness_ok(rc, out, "verif-c27")
         c.correspond(out, drv)
 
@@ -26,7 +26,7 @@ def run(c):
         if not binary:
             return
         for k in range(1, 6):
-            rc, out = c.go_run(binary, [f"-n={c.n(1500, 6000)}", f"-seed={c.seed + 1000 * k}"])
+            rc, out = c.go_run(binary, [f"-n={c.n(1000, 3000)}", f"-seed={c.seed + 1000 * k}"])
             c.collect(out)
             if c.oracle:
                 return
@@ -35,14 +35,22 @@ def run(c):
 
 META = {
     "level": "proof",
-    "technique": "Lean 4 theorems over an executable model of the evaluator (aggregators as folds, the window cursor as a state machine, "
-                 "reduction rules, storage contract) + differential correspondence with the real promql.Engine on generated storages and expressions",
-    "text": ("Kernel-checked theorems: every aggregator equals its definition over the present points (missing points excluded); "
-             "pushing sum/count/min/max/avg down into a pre-aggregating storage equals aggregating the per-series storage answers; "
-             "the window cursor selects exactly the points of the range on a uniform grid. The model is tied to the code by running "
-             "generated expressions through the real parser/evaluator/functions with an in-memory Handler and diffing every result point."),
-    "note": ("Trusted: Lean kernel; the Handler stub (storage contract, uses the real tsValues.merge/value); exact arithmetic only "
-             "(no float rounding); sqrt on perfect squares only; histogram_quantile, predict_linear, binary operators between vectors, "
-             "time shifts and multi-LOD time scales are out of scope (partial)."),
+    "technique": "Lean 4 theorems over an executable model of the PromQL evaluator (aggregators as folds over a column, the window cursor as a state "
+                 "machine, the reduction rules, the storage contract) + differential correspondence of whole Engine runs (parser -> reduction "
+                 "rules -> storage query -> functions.go -> exec) with the compiled model on generated storages and expressions",
+    "text": ("Kernel-checked, for all inputs: sum/min/max/avg/count/group/stdvar (and stddev on perfect squares, quantile at q=0) equal their "
+             "definitions over the present points; every aggregator and quantile depends on a column only through its present points; "
+             "what a pre-aggregating storage returns for the pooled rows of a group equals the engine's sum/count/min/max (and sum/count for avg) "
+             "over the per-series storage values (algebraic core of reduction soundness); the over-time rule fires iff Range <= step (= step for "
+             "stddev/stdvar); every cursor move keeps l <= r and moves r by one. The model is tied to the code by diffing every result point of "
+             "generated expressions run through the real engine; two direct oracles recompute definitions with big.Rat (def-*) and compare a "
+             "pushed-down expression with its engine-side evaluation over one-second data (reduce-*)."),
+    "note": ("Partial: reduction soundness is proved at the row level (merge/value vs aggregate), its lift to whole expressions and the window "
+             "definition on uniform grids (over_time_is_definition) are covered by correspondence/oracles only; topk/bottomk, quantile for q>0 "
+             "and grouping keys likewise. Trusted: Lean kernel; the Handler stub (storage contract; it calls the real tsValues.merge/value); "
+             "exact arithmetic only (no float rounding, sqrt on perfect squares); single-LOD time scales, one time shift, no filters; "
+             "histogram_quantile, predict_linear, vector-vector binary operators out of scope. On the pinned tree the check reports the dropped "
+             "reduction `what` and group/stdvar/stddev/quantile on all-missing columns (fixes/C27-*.diff); stdvar/stddev_over_time push-down "
+             "(sample vs population variance) is a known finding."),
     "design_ref": "DESIGN.md §6 C27",
 }
